@@ -185,8 +185,22 @@ def r_calendar(ctx):
             want_d = mul(dur[0], delta)
             want_s = mul(start, delta) if (st0 is not None and st0[1] is None) else add(S("self.problem.start_time"), mul(start, delta))
             want_e = add(s_ev[0].data["value"], d_ev[0].data["value"])
+            end_0 = mv(A(t, "_end"))
+            exact_0 = mul(end_0, delta) if (st0 is not None and st0[1] is None) else add(S("self.problem.start_time"), mul(end_0, delta))
             ok = canon(d_ev[0].data["value"]) == canon(want_d) and canon(s_ev[0].data["value"]) == canon(want_s) \
-                and canon(e_ev[0].data["value"]) == canon(want_e)
+                and (canon(e_ev[0].data["value"]) == canon(want_e) or canon(e_ev[0].data["value"]) == canon(exact_0))
+        if ok:
+            # end_time is computed as start_time + duration_time: that is problem start + end * step only if the reported duration
+            # is end - start.  For a fixed-duration task the reported duration is the DECLARED one, also when the optional task is
+            # not scheduled and sits at start == end (a parked point): its calendar end is then off by duration * step
+            end_ = mv(A(t, "_end"))
+            exact_e = mul(end_, delta) if (st0 is not None and st0[1] is None) else add(S("self.problem.start_time"), mul(end_, delta))
+            declared = any(k.startswith("isinstance(") and "FixedDurationTask" in k and v for k, v in run.decisions)
+            if declared and canon(e_ev[0].data["value"]) != canon(exact_e):
+                ctx.violation("R-CALENDAR", where, "calendar end of an unscheduled fixed-duration task",
+                              f"on [{describe_config(run)[:80]}] end_time = start_time + duration_time with the declared duration: for an "
+                              f"optional FixedDurationTask left unscheduled (start == end == a parked point) the calendar end is "
+                              f"start_time + duration * step, not problem start + end * step", LOC)
         if ok:
             ctx.ok("R-CALENDAR", f"{where} [{describe_config(run)[:80]}]", sample={"start_time": show(s_ev[0].data["value"])[:160]})
         else:
